@@ -161,5 +161,35 @@ def slotCtx : Sh → Slot → St
   | .elvish, _ => .sq
   | .nu, _ => .cm                    -- `# help`
 
+/-! ### zsh, second level: what `_arguments` / `_describe` see after the shell has removed the quoting -/
+
+inductive UnqSt | sq | n | nEsc
+deriving Repr, DecidableEq
+
+/-- the shell's reading of (the rest of) a word: inside single quotes `'` leaves the quotes; outside them a
+backslash quotes the next character and `'` opens the quotes again -/
+def zshUnq : UnqSt → Str → Str
+  | _, [] => []
+  | .sq, c :: r => if c == '\'' then zshUnq .n r else c :: zshUnq .sq r
+  | .n, c :: r => if c == '\'' then zshUnq .sq r else if c == '\\' then zshUnq .nEsc r else c :: zshUnq .n r
+  | .nEsc, c :: r => c :: zshUnq .n r
+
+def zshUnqSq (s : Str) : Str := zshUnq .sq s
+
+/-- the `_arguments` / `_describe` mini-language inside `[description]` and `name:description`:
+a backslash quotes the next character; the Bool of the result says whether a structural character
+(`]` for the bracket form, `:` for the colon form) was met unquoted -/
+def specRun (stop : Char) : Bool → Str → Bool × Bool
+  | esc, [] => (esc, false)
+  | esc, c :: r =>
+    if esc then specRun stop false r
+    else if c == '\\' then specRun stop true r
+    else
+      let (e, hit) := specRun stop false r
+      (e, hit || c == stop)
+
+/-- `escape_help` without its shell-quoting step (`'` → `'\''`): what is left once the shell has read the word -/
+def zshHelpSpecChain : List (Char × Str) := Gen.zshEscapeHelp.filter fun p => p.1 != '\''
+
 end Shell
 end Clap
